@@ -156,6 +156,28 @@ def run(tier):
                                   "limit": lim, "tokens": ntok, "impl": rl[0]})
             ck.count("token_limit_docs")
         ck.count("layout_docs")
+    # block strings: every raw content over a small alphabet, stripped (minimized printing)
+    import itertools
+    balpha = ["a", " ", "\n", "\t", '"', "\\", "\r"]
+    nblk = 0
+    raws = itertools.chain(common.strings_upto(balpha[:3] + balpha[4:6], 6 if quick else 8),
+                           common.strings_upto(balpha, 4 if quick else 6))
+    for raw in raws:
+        src = '"""' + "".join(raw) + '""" a'
+        s0 = sig_tokens(src)
+        if s0 is None:
+            continue
+        nblk += 1
+        ck.note_case(("blk", src), nontrivial=len(raw) >= 2)
+        try:
+            st = strip_ignored_characters(src)
+            ok = sig_tokens(st) == s0 and strip_ignored_characters(st) == st
+        except Exception as e:  # noqa: BLE001
+            st, ok = f"raised {type(e).__name__}", False
+        if not ok:
+            ck.violation(f"strip-block:{src!r}", f"stripping {src!r} gives {st!r}: tokens not preserved or not idempotent",
+                         {"relation": "sig(lex(strip s)) == sig(lex s) and strip idempotent", "source": src, "stripped": st})
+    ck.count("block_string_strips", nblk)
     # strip on short exhaustive strings (rejects stay rejects, idempotent)
     for s in strs if not quick else strs[:20000]:
         s0 = sig_tokens(s)
